@@ -716,6 +716,9 @@ def check_seq(seq, stats):
                     hits.append(hit("C17", seq, no, raw, f"created log of archetype {a} is {c}, creations since last clear {w.created[a]}", "created-log"))
                 if sorted(d) != sorted(w.destroyed[a]) or len(set(d)) != len(d):
                     hits.append(hit("C17", seq, no, raw, f"destroyed log of archetype {a} is {d}, destructions since last clear {w.destroyed[a]}", "destroyed-log"))
+                    alive_logged = [x_ for x_ in d if x_ in w.live and x_ not in w.destroyed[a]]
+                    if panic_seen and alive_logged:
+                        hits.append(hit("C10", seq, no, raw, f"after a caught panic the destroyed-event log of archetype {a} lists {alive_logged[:3]}, which is still alive: the entity is neither fully present nor fully absent", "event-log-after-panic"))
             for nm, hn in (("wc", "wch"), ("wd", "wdh")):
                 m = re.search(r" %s=\[([^\]]*)\] %s=\[([^\]]*)\]" % (nm, hn), obs)
                 if m:
@@ -1028,6 +1031,9 @@ def check_nest(seq, no, op, obs, raw, w, archs, id2arch, hvars):
             elif d[0] == "ib":
                 node["q"] = d[1]
                 for a in range(narch):
+                    # ecs_iter_borrow! borrows per entity: an EMPTY matched archetype is never touched
+                    if not w.unknown_destroy and not any(aa == a for (aa, _) in w.live.values()):
+                        continue
                     node["pos"] = node["pos"] | (query_cells(seq, d[1], a, archs, False) or set())
             elif d[0] == "cl":
                 node["pos"] = {(a, c, "s") for a in range(narch) for c in range(len(archs[a]["comps"]))}
